@@ -27,6 +27,7 @@ import (
 
 	"tsim/kernel"
 	"tsim/node"
+	"tsim/xr"
 )
 
 // ---------------------------------------------------------------------------------------------
@@ -209,12 +210,14 @@ type bscPacket struct {
 	hash   []byte
 	atH    uint64 // first stub height whose state contains it
 	recvOK bool
+	ack    []byte // non-nil: this is the counterparty's acknowledgement of a packet the host sent (bytes = that packet)
 }
 
 type bscWorld struct {
 	rec          *kernel.Rec
 	cfg          map[string]int64
 	wallNext     bool
+	hostSent     [][]byte // packets the host chain sent to the BSC chain
 	now          time.Time
 	host         *node.Chain
 	gov          *node.Account
@@ -282,6 +285,15 @@ func (BSCScenario) Generate(rng *rand.Rand, focus, tier string) kernel.Plan {
 	add := func(k string, a ...int64) { ops = append(ops, kernel.Op{K: k, A: a}) }
 	n := 40 + rng.Intn(80)
 	for i := 0; i < n; i++ {
+		if (focus == "C05" || focus == "C02" || focus == "C08") && kernel.Chance(rng, 0.15) || kernel.Chance(rng, 0.02) {
+			// the host sends a packet to the BSC chain / the BSC chain acknowledges one
+			if kernel.Chance(rng, 0.45) {
+				add("hsend", rng.Int63n(1000))
+			} else {
+				add("hack", rng.Int63n(8), rng.Int63n(2))
+			}
+			continue
+		}
 		switch x := rng.Intn(100); {
 		case x < 45:
 			mut := rng.Int63n(int64(len(bscMutations)))
@@ -494,6 +506,10 @@ func (w *bscWorld) apply(op kernel.Op) {
 		if op.Arg(0) > 3600 {
 			w.rec.Fault("clock.jump")
 		}
+	case "hsend":
+		w.opHostSend(op)
+	case "hack":
+		w.opStubAck(op)
 	case "rollback":
 		w.opRollback(op)
 	case "wallclock":
@@ -790,9 +806,14 @@ func (w *bscWorld) opRecv(op kernel.Op) {
 	}
 	slot := slotFor(pk.path)
 	proof, dontCare := mutateProof(r, mut, sn.prove(w.contract, slot), sn, older, w.contract, slot, w.other)
-	msg := &packettypes.MsgRecvPacket{Packet: pk.bytes, ProofCommitment: proof, ProofHeight: clienttypes.NewHeight(0, h), Signer: w.relayer.Acc.String()}
+	var msg sdk.Msg = &packettypes.MsgRecvPacket{Packet: pk.bytes, ProofCommitment: proof, ProofHeight: clienttypes.NewHeight(0, h), Signer: w.relayer.Acc.String()}
+	what := "recv"
+	if pk.ack != nil {
+		msg = &packettypes.MsgAcknowledgement{Packet: pk.bytes, Acknowledgement: pk.ack, ProofAcked: proof, ProofHeight: clienttypes.NewHeight(0, h), Signer: w.relayer.Acc.String()}
+		what = "ack"
+	}
 	w.pending = append(w.pending, &bscTx{kind: "recv", msg: msg, pkt: pk, height: h, proof: proof, mut: mut, dontCare: dontCare,
-		desc: fmt.Sprintf("recv seq=%d at h=%d (head %d, delay %d) mut=%s", pk.seq, h, head, delay, mut)})
+		desc: fmt.Sprintf("%s seq=%d at h=%d (head %d, delay %d) mut=%s", what, pk.seq, h, head, delay, mut)})
 	if mut != "none" {
 		w.rec.Fault("net.corrupt.proof." + mut)
 	}
@@ -926,6 +947,10 @@ func (w *bscWorld) afterRecv(tx *bscTx, ok bool, log string, pre, post map[strin
 			// the same acceptance seen from the packet protocol (C02): the counterparty provably stored this packet
 			// hash at a height the installed client vouches for - here it did not
 			w.rec.Violate("C02", "accepted_unproven", key, "accepted %s (heightOK=%v proofOK=%v)", tx.desc, heightOK, proofOK)
+			if tx.pkt.ack != nil {
+				// the commitment was removed (and the outcome recorded, the fee paid) without a verified acknowledgement
+				w.rec.Violate("C05", "ack_accepted_unproven", key, "accepted %s (heightOK=%v proofOK=%v)", tx.desc, heightOK, proofOK)
+			}
 		}
 		return
 	}
@@ -1145,4 +1170,50 @@ func (w *bscWorld) opRollback(op kernel.Op) {
 		fmt.Fprintln(os.Stderr, "DEBUG rollback: stored", st, "model", rootKeys(w.m.roots), "now", w.host.CurHdr.Time.Unix(), "times", w.m.times, "tp", w.tp)
 	}
 	w.checkClient("after rollback upgrade")
+}
+
+// opHostSend: the host chain sends a packet (native coin) to the BSC chain, in a block of its own.
+func (w *bscWorld) opHostSend(op kernel.Op) {
+	if w.host.InBlock || w.host.Halted != "" {
+		return
+	}
+	to, data := xr.NativeSend(w.name, w.relayer.Eth, big.NewInt(1000+op.Arg(0)%1000))
+	w.now = w.now.Add(3 * time.Second)
+	w.host.BeginBlock(w.now)
+	tx, err := w.host.EthTx(w.gov, &to, big.NewInt(1000+op.Arg(0)%1000), data)
+	if err == nil {
+		res := w.host.DeliverTx(tx)
+		for _, bz := range xr.SentPacketBytes(res.Events) {
+			w.hostSent = append(w.hostSent, bz)
+			w.rec.Probe("host.sent_packet")
+		}
+	}
+	w.host.EndBlockCommit()
+}
+
+// opStubAck: the BSC chain acknowledges a packet of the host (stores the acknowledgement hash in its
+// contract storage); a later "recv" op relays it with a storage proof.
+func (w *bscWorld) opStubAck(op kernel.Op) {
+	if len(w.hostSent) == 0 {
+		return
+	}
+	i := kernel.Mod(op.Arg(0), len(w.hostSent))
+	p, err := xr.DecodePacket(w.hostSent[i])
+	if err != nil {
+		return
+	}
+	for _, x := range w.packets {
+		if x.ack != nil && x.seq == p.Sequence {
+			return // acknowledged already
+		}
+	}
+	a := xr.Ack{Code: uint64(op.Arg(1) % 2), Relayer: w.relayer.Acc.String()}
+	if a.Code != 0 {
+		a.Message = "failed on the bsc chain"
+	}
+	ackBz := a.Encode()
+	path := fmt.Sprintf("acks/%s/%s/sequences/%d", p.SrcChain, p.DstChain, p.Sequence)
+	w.state.setStorage(w.contract, slotFor(path), common.BytesToHash(sha(ackBz)))
+	w.packets = append(w.packets, &bscPacket{seq: p.Sequence, bytes: w.hostSent[i], ack: ackBz, path: path, hash: sha(ackBz), atH: w.tip().head.Number.Uint64() + 1})
+	w.rec.Logf("stub acknowledged host packet %d (code %d)", p.Sequence, a.Code)
 }
